@@ -61,6 +61,12 @@ def make_samples(vseed: int, nsamps: int, nchans: int, nbits: int, mode: str = "
         period = 5 + vseed % 11
         blank = ((t // period) % 2 == 1)
         return np.where(blank, 0, np.maximum(vals, 1 if top >= 1 else 0)).astype(dt)
+    if mode == "blank128":
+        # small positive integers with every second stretch of 128 samples exactly zero in all channels: whole blocks of
+        # several kB that are nothing but zero bytes (blanked data, zero padding at the end of a scan)
+        top = min(15, (1 << nbits) - 1) if nbits < 32 else 15
+        vals = np.maximum((h % np.uint64(top + 1)).astype(np.int64), 1 if top >= 1 else 0)
+        return np.where((t // 128) % 2 == 1, 0, vals).astype(dt)
     if mode == "flat":
         # every sample equals one small constant: block means are exact integers
         return np.full((nsamps, nchans), 1 + (vseed % 15)).astype(dt) if nbits > 2 else np.full((nsamps, nchans), 1).astype(dt)
